@@ -62,27 +62,27 @@ var propDescs = map[string]propDesc{
 		NotDecided: "longest-match / ordering exactness otherwise.",
 	},
 	"C14": {
-		Decides:    "no operation error is dropped; every failure is queued; queue head changes re-arm the timer; popped items are processed; change/success clears; each retry heap is addressed with its own item index and built with its own ordering key and position field, heap Swap/Push/Pop keep positions in step; the retry carries the revision read after the last write and the object version that was written (ERR-FLOW, TIMER-REARM, QUEUE-INDEX-PAIR, QUEUE-CTOR).",
+		Decides:    "no operation error is dropped; every failure is queued; queue head changes re-arm the timer; popped items are processed; change/success clears; each retry heap is addressed with its own item index and built with its own ordering key and position field, heap Swap/Push/Pop keep positions in step; the retry carries the revision read after the last write and the object version that was written; a round the changes filled up to IncrementalRoundSize still serves one due retry (ERR-FLOW, TIMER-REARM, QUEUE-INDEX-PAIR, QUEUE-CTOR).",
 		NotDecided: "convergence, bounds in retry periods, round-size interplay.",
 	},
 	"C15": {
-		Decides:    "the reconciler's table writes are CAS-on-reconciled-revision or guarded inserts, never on un-cloned objects, never deletes; prune is gated on initialization and given the full table; StatusSet is copy-on-write and Pending() gives every status the fresh id unconditionally; a retry is queued with the version of the object the status was written to, at the revision read after that write (RECONCILER-WRITES, PRUNE-GATE, IMMUT, ERR-FLOW, RETRY-BOOK).",
+		Decides:    "the reconciler's table writes are CAS-on-reconciled-revision or guarded inserts, never on un-cloned objects, never deletes; prune is gated on initialization and given the full table; StatusSet is copy-on-write and Pending() gives every status the fresh id unconditionally; a retry is queued with the version of the object the status was written to, at the revision read after that write; the same-request shortcut of the status commit is taken only for a non-zero identifier (RECONCILER-WRITES, PRUNE-GATE, IMMUT, ERR-FLOW, RETRY-BOOK).",
 		NotDecided: "that the guards compare the right values for every interleaving.",
 	},
 	"C16": {
-		Decides:    "the bookkeeping the pacing contract rests on: the backoff duration is capped by the maximum; an object's retry state (attempt counter) is forgotten when a new version arrives or an operation succeeds, so the backoff starts over; every failure refreshes the queued item and re-positions it in both heaps; the retry low watermark is the oldest failed item's revision and 0 only when none remains; WaitUntilReconciled's progress is published from the revisions incremental.run actually processed, and the low watermark is published on every update whatever the round's revision; the revision heap is ordered by origRev (RETRY-BOOK, TIMER-REARM, QUEUE-CTOR, QUEUE-INDEX-PAIR).",
+		Decides:    "the bookkeeping the pacing contract rests on: the backoff duration is capped by the maximum; an object's retry state (attempt counter) is forgotten when a new version arrives or an operation succeeds, so the backoff starts over; every failure refreshes the queued item and re-positions it in both heaps; the retry low watermark is the oldest failed item's revision and 0 only when none remains; WaitUntilReconciled's progress is published from the revisions incremental.run actually processed, and the low watermark is published on every update whatever the round's revision; the revision heap is ordered by origRev; a round cut short by the round size is marked and does not publish the revision it stopped at; validate() relates the backoff bounds; (known finding) the origin revision of a failed update is the observed version's revision, not the change's (RETRY-BOOK, TIMER-REARM, QUEUE-CTOR, QUEUE-INDEX-PAIR).",
 		NotDecided: "every clause about durations: never sooner than the minimum backoff, waits that do not shrink, retry within maximum plus one round - run-time quantities with no static handle.",
 	},
 	"C17": {
-		Decides:    "the singleton pair is never mutated in place; migration-before-insert ordering; no use of a published transaction; the JSON/YAML decoders decode each element into a fresh variable; Set.All honours yield's result; SlowEqual compares values the same way in every representation; equality never answers from the representation flags alone (IMMUT, SINGLETON-FIRST, TXN-RETIRE, DECODE-FRESH, YIELD-RETURN, REPR-EQ, EPOCH, FREEZE).",
+		Decides:    "the singleton pair is never mutated in place; migration-before-insert ordering; no use of a published transaction; the JSON/YAML decoders decode each element into a fresh variable; Set.All honours yield's result; SlowEqual compares values the same way in every representation; equality never answers from the representation flags alone; a Map tree filled by a loop of inserts is stored under a size test or normalised before the return (MAP-CANON) (IMMUT, SINGLETON-FIRST, TXN-RETIRE, DECODE-FRESH, YIELD-RETURN, REPR-EQ, EPOCH, FREEZE).",
 		NotDecided: "model exactness, representation switches, JSON/YAML round trip beyond the decode-target clause.",
 	},
 	"C18": {
-		Decides:    "the escape table extracted from appendEncode is prefix-free, order-preserving and avoids the minimal separator (exhaustive over all 256 bytes); encodedLength agrees with it; the composite key is parsed into enc(secondary), separator, enc(primary) and a constant tail that starts below every code word (so a primary key sorts before its extensions), accessor offsets agree with the parsed layout; integer encoders and the LPM key codec are big-endian through encoding/binary and do not narrow or shift a byte out; no encoder writes through the slice it was given (ENC-FRESH) (ENC-TABLE, ENC-AGREE, ENC-LAYOUT, ENC-ENDIAN, ENC-NARROW).",
+		Decides:    "the escape table extracted from appendEncode is prefix-free, order-preserving and avoids the minimal separator (exhaustive over all 256 bytes); encodedLength agrees with it; the composite key is parsed into enc(secondary), separator, enc(primary) and a constant tail that starts below every code word (so a primary key sorts before its extensions), accessor offsets agree with the parsed layout; integer encoders and the LPM key codec are big-endian through encoding/binary and do not narrow or shift a byte out; the typed integer encoders keep every bit of their argument (LEN-NARROW); every ObjectToKey of an LPM indexer returns the encoded LPM key (LPM-INDEXER-KEYS); no encoder writes through the slice it was given (ENC-FRESH) (ENC-TABLE, ENC-AGREE, ENC-LAYOUT, ENC-ENDIAN, ENC-NARROW).",
 		NotDecided: "LPM key masking arithmetic; keys of 64 KiB and more.",
 	},
 	"C19": {
-		Decides:    "copy-on-write of the pending list and initialization record; the init channel is closed only by Commit, after the root Store; `init` is cleared only when pending is empty; abort cannot affect it, and the mark-done closure keeps no state outside the transaction; Derive reads the input's initialization from the snapshot whose changes it consumed, and an exhausted change iterator answers from the snapshot it is given (IMMUT, COMMIT-ORDER, NOTIFY-SITES, ABORT-PURE, INIT-SHAPE, DERIVE-SNAPSHOT, NEXT-SHAPE).",
+		Decides:    "copy-on-write of the pending list and initialization record; the init channel is closed only by Commit, after the root Store; `init` is cleared only when pending is empty; abort cannot affect it, and the mark-done closure keeps no state outside the transaction and finds its registration by a per-call identity, not by name; Derive reads the input's initialization from the snapshot whose changes it consumed, and an exhausted change iterator answers from the snapshot it is given (IMMUT, COMMIT-ORDER, NOTIFY-SITES, ABORT-PURE, INIT-SHAPE, DERIVE-SNAPSHOT, NEXT-SHAPE).",
 		NotDecided: "'exactly when every initializer is done' as a history property.",
 	},
 	"C20": {
